@@ -29,7 +29,8 @@ GRID = 10 ** 6
 RULE = ("one history per invocation evaluates EVERY connected graph on 2-6 vertices (graph atlas, 142 shapes, own names, "
         "scheduler-chosen order, 25 revisits) on one shared evaluator; run indexes 100-123 do the same for the 709 connected 7-vertex shapes "
         "with at most 13 edges (24 chunks by degree sequence, two focal vertices per shape); two vertices of a motif occasionally carry different int labels with "
-        "the same hash; otherwise: seeded pools of 3-8 distinctly named connected motifs (random connected graphs on 2..6 vertices with <= 9 edges "
+        "the same hash; 20% of the histories contain a motif pair whose (vertex set, name) strings coincide under concatenation "
+        "(B = A without its largest vertex x, named '<x><sep><name of A>'); otherwise: seeded pools of 3-8 distinctly named connected motifs (random connected graphs on 2..6 vertices with <= 9 edges "
         "(thorough <= 11), K2..K5, C3..C7, diamond, trees, stars; arbitrary integer labels; names with digits and dashes) "
         "and histories of 10-40 evaluations (motif, focal, operand kind, heterogeneous u) on ONE evaluator that revisit "
         "and interleave motifs; operand kinds float / exact rationals on a 1e6 grid / polynomial symbols; faults: operand "
